@@ -154,6 +154,7 @@ def entryCallCosts (o : OpInfo) : Bool :=
   match o.exec with
   | .call _ => decide (o.constGas ≥ 700) && !o.halts && !o.reverts && !o.jumps
   | .create | .create2 => decide (o.constGas ≥ 32000) && !o.halts && !o.reverts && !o.jumps
+  | .authcall => decide (o.constGas ≥ 100) && !o.halts && !o.reverts && !o.jumps
   | _ => true
 
 theorem calls_cost : allEntries entryCallCosts = true := by decide +kernel
